@@ -12,13 +12,23 @@ import keyword
 
 from . import common as cm
 
+ANCHORS = ["pyflyby._format:fill", "pyflyby._format:pyfill",
+           "pyflyby._importstmt:Import.split", "pyflyby._importstmt:Import.from_split",
+           "pyflyby._importstmt:ImportStatement._from_imports", "pyflyby._importstmt:ImportStatement.imports",
+           "pyflyby._importstmt:ImportStatement.pretty_print",
+           "pyflyby._importclns:ImportSet._from_imports", "pyflyby._importclns:ImportSet._by_module_name",
+           "pyflyby._importclns:ImportSet.get_statements", "pyflyby._importclns:ImportSet.imports",
+           "pyflyby._importclns:ImportSet.by_import_as", "pyflyby._importclns:ImportSet.conflicting_imports",
+           "pyflyby._importclns:ImportSet.with_imports", "pyflyby._importclns:ImportSet.without_imports",
+           "pyflyby._importclns:ImportSet.pretty_print", "pyflyby._idents:dotted_prefixes"]
+
 REQ = ["Imports.Import", "Imports.ImportSet", "Imports.Format", "Imports.ImportLex", "Imports.Wire"]
 
 # ---------------------------------------------------------------------------------------------
 # generators
 
-ALPHA0 = "abcxyz_"
-ALPHA = "abcxyz_019"
+ALPHA0 = "abcxyz_AZ"
+ALPHA = "abcxyz_019AZ"
 FUTURES = ["division", "annotations", "print_function", "absolute_import", "generators", "with_statement"]
 
 
@@ -105,6 +115,25 @@ def gen_set_case(r, i):
             a = f.split(".")[-1]
         imports.append([f, a])
     P = rand_params(r)
+    if r.random() < .15:
+        # __future__ together with modules whose names sort before '__future__' (uppercase, _A.._Z, __a..__e,
+        # ___): the __future__ statement must still come first, under every separate/align_future setting
+        imports.append(["__future__." + r.choice(FUTURES), None])
+        for _ in range(r.randint(1, 3)):
+            m = r.choice(["A", "Zeta", "_A", "_Zz", "_0x", "__a", "__e9", "___", "__F", "B.c", "__future", "__futur"]) + r.choice(["", "", "x", "_1"])
+            k = r.random()
+            if k < .4:
+                imports.append([m, m])
+            elif k < .5:
+                imports.append([m, ident(r, 4)])
+            elif k < .9:
+                b = ident(r, 6)
+                imports.append([m + "." + b, b])
+            else:
+                imports.append([m + ".*", "*"])
+        imports = [[f, a if a is not None else f.split(".")[-1]] for f, a in imports]
+        P["separate"] = r.random() < .35
+        P["align_future"] = r.random() < .5
     shadow = r.random() < .7
     if not shadow:                                   # avoid most accidental conflicts, keep a few
         seen = {}
@@ -417,6 +446,12 @@ def oracle_set(ctx, c, im):
     if sts is None:
         bad.append(("roundtrip", "the printed block is not a valid block of import statements: %r" % text))
         return bad
+    try:
+        # ast.parse accepts what only the compiler rejects (a __future__ import that is not first, ...)
+        compile(text, "<c11>", "exec", dont_inherit=True)
+    except (SyntaxError, ValueError) as e:
+        bad.append(("valid_python", "the printed block does not compile (%s): %r" % (e.msg if isinstance(e, SyntaxError) else e, text)))
+        return bad
     got = sorted(pairs_of_statements(sts))
     if got != sorted(im["set"]):
         bad.append(("roundtrip", "re-read imports %r differ from the printed set %r" % (got, sorted(im["set"]))))
@@ -530,6 +565,8 @@ def run(ctx):
         "the model prints the REPAIRED ImportStatement.pretty_print (fixes/F02-F25-no-paren-plain-star-import.diff)",
     ]
     ctx.notes["trusted_base"] = ["CPython ast.parse as the reference reader of the printed text (oracle) and as the reference for the model parser"]
+    cm.check_anchors(ctx, ANCHORS)
+    n *= getattr(ctx, "scale", 1)
     cases = cm.load_corpus("C11") + gen_cases(ctx, n)
     if not ctx.quick:
         cases += exhaustive_cases(ctx, 20000)
